@@ -1,7 +1,887 @@
-//! Statechart generator and its document model (the oracle's view of a document).
+//! Statechart generator and its document model. The model is the oracle's view of a document: the
+//! reference interpreter runs on it, the XML handed to rFSM is rendered from it.
+
+use crate::util::Rng;
 use serde::{Deserialize, Serialize};
 
+#[derive(Clone, Copy, Debug, Serialize, Deserialize, PartialEq, Eq)]
+pub enum Dm {
+    Null,
+    Rfsm,
+    Ecma,
+}
+
+#[derive(Clone, Copy, Debug, Serialize, Deserialize, PartialEq, Eq)]
+pub enum Kind {
+    State,
+    Parallel,
+    Final,
+    HistoryShallow,
+    HistoryDeep,
+}
+
+impl Kind {
+    pub fn is_history(&self) -> bool {
+        matches!(self, Kind::HistoryShallow | Kind::HistoryDeep)
+    }
+}
+
+#[derive(Clone, Debug, Serialize, Deserialize, PartialEq)]
+pub enum Expr {
+    Int(i64),
+    Str(String),
+    Bool(bool),
+    Var(String),
+    Add(Box<Expr>, Box<Expr>),
+    Sub(Box<Expr>, Box<Expr>),
+    Eq(Box<Expr>, Box<Expr>),
+    Lt(Box<Expr>, Box<Expr>),
+    And(Box<Expr>, Box<Expr>),
+    Not(Box<Expr>),
+    In(String),
+    EventName,
+    /// _event.data.<k>
+    EventData(String),
+    /// one of the _event standard fields: type, sendid, origin, origintype, invokeid
+    EventField(String),
+    SessionId,
+    Name,
+    Array(Vec<Expr>),
+    /// literal source text whose evaluation is an error in every datamodel that evaluates expressions
+    Bad(String),
+}
+
+#[derive(Clone, Debug, Serialize, Deserialize, PartialEq)]
+pub enum Exec {
+    /// <script>mark('<tag>', args...)</script>
+    Mark(String, Vec<Expr>),
+    Assign { loc: String, expr: Expr },
+    Raise(String),
+    If { arms: Vec<(Expr, Vec<Exec>)>, els: Option<Vec<Exec>> },
+    Foreach { array: Expr, item: String, index: Option<String>, body: Vec<Exec> },
+    Log(Expr),
+    /// <send> through the SCXML processor. target: None = own external queue, Some("#_internal"), ...
+    Send { event: String, target: Option<String>, delay_ms: u64, id: Option<String>, params: Vec<(String, Expr)> },
+    Cancel { sendid: String },
+}
+
 #[derive(Clone, Debug, Serialize, Deserialize, PartialEq, Default)]
+pub struct Trans {
+    /// event descriptors as written ("a", "a.b", "*", "a.*"); empty = eventless
+    pub events: Vec<String>,
+    pub cond: Option<Expr>,
+    pub targets: Vec<String>,
+    pub internal: bool,
+    pub content: Vec<Exec>,
+    /// unique label (diagnostics)
+    pub label: String,
+}
+
+#[derive(Clone, Debug, Serialize, Deserialize, PartialEq)]
+pub enum Initial {
+    /// default: first child in document order
+    Default,
+    Attr(Vec<String>),
+    Elem { targets: Vec<String>, content: Vec<Exec> },
+}
+
+#[derive(Clone, Debug, Serialize, Deserialize, PartialEq)]
+pub struct DataDecl {
+    pub id: String,
+    pub expr: Option<Expr>,
+}
+
+#[derive(Clone, Debug, Serialize, Deserialize, PartialEq)]
+pub struct DoneData {
+    pub params: Vec<(String, Expr)>,
+}
+
+#[derive(Clone, Debug, Serialize, Deserialize, PartialEq)]
+pub struct Node {
+    pub id: String,
+    pub kind: Kind,
+    pub children: Vec<Node>,
+    pub initial: Initial,
+    pub onentry: Vec<Vec<Exec>>,
+    pub onexit: Vec<Vec<Exec>>,
+    pub trans: Vec<Trans>,
+    pub data: Vec<DataDecl>,
+    #[serde(default)]
+    pub donedata: Option<DoneData>,
+}
+
+impl Node {
+    pub fn new(id: &str, kind: Kind) -> Node {
+        Node { id: id.to_string(), kind, children: vec![], initial: Initial::Default, onentry: vec![], onexit: vec![], trans: vec![], data: vec![], donedata: None }
+    }
+}
+
+#[derive(Clone, Debug, Serialize, Deserialize, PartialEq)]
 pub struct Doc {
     pub name: String,
+    pub dm: Dm,
+    pub late: bool,
+    /// the <scxml> element: kind State, id "" (children = top-level states)
+    pub root: Node,
+}
+
+impl Default for Doc {
+    fn default() -> Self {
+        Doc { name: "doc".into(), dm: Dm::Rfsm, late: false, root: Node::new("", Kind::State) }
+    }
+}
+
+// ---------------------------------------------------------------------------------------------
+// rendering
+
+fn esc(s: &str) -> String {
+    s.replace('&', "&amp;").replace('<', "&lt;").replace('>', "&gt;").replace('"', "&quot;")
+}
+
+pub fn render_expr(e: &Expr, dm: Dm) -> String {
+    match e {
+        Expr::Int(i) => {
+            if *i < 0 {
+                format!("(0 - {})", -i)
+            } else {
+                format!("{}", i)
+            }
+        }
+        Expr::Str(s) => format!("'{}'", s),
+        Expr::Bool(b) => format!("{}", b),
+        Expr::Var(v) => v.clone(),
+        Expr::Add(a, b) => format!("({} + {})", render_expr(a, dm), render_expr(b, dm)),
+        Expr::Sub(a, b) => format!("({} - {})", render_expr(a, dm), render_expr(b, dm)),
+        Expr::Eq(a, b) => format!("({} == {})", render_expr(a, dm), render_expr(b, dm)),
+        Expr::Lt(a, b) => format!("({} < {})", render_expr(a, dm), render_expr(b, dm)),
+        Expr::And(a, b) => match dm {
+            Dm::Ecma => format!("({} && {})", render_expr(a, dm), render_expr(b, dm)),
+            _ => format!("({} & {})", render_expr(a, dm), render_expr(b, dm)),
+        },
+        Expr::Not(a) => format!("!({})", render_expr(a, dm)),
+        Expr::In(s) => format!("In('{}')", s),
+        Expr::EventName => "_event.name".to_string(),
+        Expr::EventData(k) => format!("_event.data.{}", k),
+        Expr::EventField(k) => format!("_event.{}", k),
+        Expr::SessionId => "_sessionid".to_string(),
+        Expr::Name => "_name".to_string(),
+        Expr::Array(v) => format!("[{}]", v.iter().map(|x| render_expr(x, dm)).collect::<Vec<_>>().join(", ")),
+        Expr::Bad(s) => s.clone(),
+    }
+}
+
+fn render_exec(out: &mut String, x: &Exec, dm: Dm, ind: usize) {
+    let pad = " ".repeat(ind);
+    match x {
+        Exec::Mark(tag, args) => {
+            let mut a = vec![format!("'{}'", tag)];
+            a.extend(args.iter().map(|e| render_expr(e, dm)));
+            out.push_str(&format!("{}<script>mark({})</script>\n", pad, esc(&a.join(", "))));
+        }
+        Exec::Assign { loc, expr } => out.push_str(&format!("{}<assign location=\"{}\" expr=\"{}\"/>\n", pad, esc(loc), esc(&render_expr(expr, dm)))),
+        Exec::Raise(e) => out.push_str(&format!("{}<raise event=\"{}\"/>\n", pad, e)),
+        Exec::If { arms, els } => {
+            for (i, (c, body)) in arms.iter().enumerate() {
+                if i == 0 {
+                    out.push_str(&format!("{}<if cond=\"{}\">\n", pad, esc(&render_expr(c, dm))));
+                } else {
+                    out.push_str(&format!("{}<elseif cond=\"{}\"/>\n", pad, esc(&render_expr(c, dm))));
+                }
+                for b in body {
+                    render_exec(out, b, dm, ind + 1);
+                }
+            }
+            if let Some(e) = els {
+                out.push_str(&format!("{}<else/>\n", pad));
+                for b in e {
+                    render_exec(out, b, dm, ind + 1);
+                }
+            }
+            out.push_str(&format!("{}</if>\n", pad));
+        }
+        Exec::Foreach { array, item, index, body } => {
+            out.push_str(&format!("{}<foreach array=\"{}\" item=\"{}\"", pad, esc(&render_expr(array, dm)), item));
+            if let Some(i) = index {
+                out.push_str(&format!(" index=\"{}\"", i));
+            }
+            out.push_str(">\n");
+            for b in body {
+                render_exec(out, b, dm, ind + 1);
+            }
+            out.push_str(&format!("{}</foreach>\n", pad));
+        }
+        Exec::Log(e) => out.push_str(&format!("{}<log expr=\"{}\"/>\n", pad, esc(&render_expr(e, dm)))),
+        Exec::Send { event, target, delay_ms, id, params } => {
+            out.push_str(&format!("{}<send event=\"{}\"", pad, event));
+            if let Some(t) = target {
+                out.push_str(&format!(" target=\"{}\"", esc(t)));
+            }
+            if *delay_ms > 0 {
+                out.push_str(&format!(" delay=\"{}ms\"", delay_ms));
+            }
+            if let Some(i) = id {
+                out.push_str(&format!(" id=\"{}\"", i));
+            }
+            if params.is_empty() {
+                out.push_str("/>\n");
+            } else {
+                out.push_str(">");
+                for (n, e) in params {
+                    out.push_str(&format!("<param name=\"{}\" expr=\"{}\"/>", n, esc(&render_expr(e, dm))));
+                }
+                out.push_str("</send>\n");
+            }
+        }
+        Exec::Cancel { sendid } => out.push_str(&format!("{}<cancel sendid=\"{}\"/>\n", pad, sendid)),
+    }
+}
+
+fn render_block(out: &mut String, tag: &str, body: &[Exec], dm: Dm, ind: usize) {
+    let pad = " ".repeat(ind);
+    out.push_str(&format!("{}<{}>\n", pad, tag));
+    for x in body {
+        render_exec(out, x, dm, ind + 1);
+    }
+    out.push_str(&format!("{}</{}>\n", pad, tag));
+}
+
+fn render_trans(out: &mut String, t: &Trans, dm: Dm, ind: usize) {
+    let pad = " ".repeat(ind);
+    out.push_str(&format!("{}<transition", pad));
+    if !t.events.is_empty() {
+        out.push_str(&format!(" event=\"{}\"", t.events.join(" ")));
+    }
+    if let Some(c) = &t.cond {
+        out.push_str(&format!(" cond=\"{}\"", esc(&render_expr(c, dm))));
+    }
+    if !t.targets.is_empty() {
+        out.push_str(&format!(" target=\"{}\"", t.targets.join(" ")));
+    }
+    if t.internal {
+        out.push_str(" type=\"internal\"");
+    }
+    if t.content.is_empty() {
+        out.push_str("/>\n");
+    } else {
+        out.push_str(">\n");
+        for x in &t.content {
+            render_exec(out, x, dm, ind + 1);
+        }
+        out.push_str(&format!("{}</transition>\n", pad));
+    }
+}
+
+fn render_node(out: &mut String, n: &Node, dm: Dm, ind: usize) {
+    let pad = " ".repeat(ind);
+    let tag = match n.kind {
+        Kind::State => "state",
+        Kind::Parallel => "parallel",
+        Kind::Final => "final",
+        Kind::HistoryShallow | Kind::HistoryDeep => "history",
+    };
+    out.push_str(&format!("{}<{} id=\"{}\"", pad, tag, n.id));
+    if n.kind == Kind::HistoryDeep {
+        out.push_str(" type=\"deep\"");
+    }
+    if n.kind == Kind::HistoryShallow {
+        out.push_str(" type=\"shallow\"");
+    }
+    if let Initial::Attr(t) = &n.initial {
+        out.push_str(&format!(" initial=\"{}\"", t.join(" ")));
+    }
+    out.push_str(">\n");
+    render_node_body(out, n, dm, ind + 1);
+    out.push_str(&format!("{}</{}>\n", pad, tag));
+}
+
+fn render_node_body(out: &mut String, n: &Node, dm: Dm, ind: usize) {
+    let pad = " ".repeat(ind);
+    if !n.data.is_empty() {
+        out.push_str(&format!("{}<datamodel>\n", pad));
+        for d in &n.data {
+            match &d.expr {
+                Some(e) => out.push_str(&format!("{} <data id=\"{}\" expr=\"{}\"/>\n", pad, d.id, esc(&render_expr(e, dm)))),
+                None => out.push_str(&format!("{} <data id=\"{}\"/>\n", pad, d.id)),
+            }
+        }
+        out.push_str(&format!("{}</datamodel>\n", pad));
+    }
+    if let Initial::Elem { targets, content } = &n.initial {
+        out.push_str(&format!("{}<initial>\n", pad));
+        let t = Trans { targets: targets.clone(), content: content.clone(), ..Default::default() };
+        render_trans(out, &t, dm, ind + 1);
+        out.push_str(&format!("{}</initial>\n", pad));
+    }
+    for b in &n.onentry {
+        render_block(out, "onentry", b, dm, ind);
+    }
+    for b in &n.onexit {
+        render_block(out, "onexit", b, dm, ind);
+    }
+    for t in &n.trans {
+        render_trans(out, t, dm, ind);
+    }
+    if let Some(dd) = &n.donedata {
+        out.push_str(&format!("{}<donedata>", pad));
+        for (k, e) in &dd.params {
+            out.push_str(&format!("<param name=\"{}\" expr=\"{}\"/>", k, esc(&render_expr(e, dm))));
+        }
+        out.push_str("</donedata>\n");
+    }
+    for c in &n.children {
+        render_node(out, c, dm, ind);
+    }
+}
+
+pub fn render(doc: &Doc) -> String {
+    let mut out = String::new();
+    let dm = match doc.dm {
+        Dm::Null => "null",
+        Dm::Rfsm => "rfsm-expression",
+        Dm::Ecma => "ecmascript",
+    };
+    out.push_str(&format!("<scxml xmlns=\"http://www.w3.org/2005/07/scxml\" version=\"1.0\" datamodel=\"{}\" name=\"{}\"", dm, doc.name));
+    if doc.late {
+        out.push_str(" binding=\"late\"");
+    }
+    if let Initial::Attr(t) = &doc.root.initial {
+        out.push_str(&format!(" initial=\"{}\"", t.join(" ")));
+    }
+    out.push_str(">\n");
+    render_node_body(&mut out, &doc.root, doc.dm, 1);
+    out.push_str("</scxml>\n");
+    out
+}
+
+// ---------------------------------------------------------------------------------------------
+// generation
+
+/// What the generator may put into a document; each property sets its own profile.
+#[derive(Clone, Debug)]
+pub struct Profile {
+    pub max_states: usize,
+    pub max_depth: usize,
+    pub parallel: u64,  // per-mille probability that a compound node is a parallel
+    pub history: u64,   // per-mille probability that a compound/parallel parent gets a history child
+    pub finals: u64,    // per-mille probability of a final child in a compound state
+    pub content: u64,   // per-mille probability that a body gets (more) executable content
+    pub guards: u64,    // per-mille probability of a guard on a transition
+    pub eventless: u64, // per-mille probability that a transition is eventless (guarded by a counter)
+    pub raise: u64,     // per-mille probability of <raise>/<send #_internal> in content
+    pub errors: u64,    // per-mille probability of an erroring construct at a site that allows it
+    pub multi_target: u64,
+    pub internal: u64,
+    pub targetless: u64,
+    pub dm: Dm,
+    pub late: bool,
+    pub top_final: u64,
+    pub selfsend: u64,
+    pub if_foreach: u64,
+    pub readonly_writes: u64,
+    pub donedata: u64,
+    /// per-mille probability that a (non-root) state declares a data element of its own
+    pub state_data: u64,
+}
+
+impl Profile {
+    pub fn structural(dm: Dm) -> Profile {
+        Profile {
+            max_states: 10,
+            max_depth: 4,
+            parallel: 300,
+            history: 300,
+            finals: 150,
+            content: 500,
+            guards: 300,
+            eventless: 120,
+            raise: 150,
+            errors: 0,
+            multi_target: 150,
+            internal: 200,
+            targetless: 120,
+            dm,
+            late: false,
+            top_final: 200,
+            selfsend: 0,
+            if_foreach: 150,
+            readonly_writes: 0,
+            donedata: 0,
+            state_data: 0,
+        }
+    }
+}
+
+pub const ALPHABET: &[&str] = &["a", "b", "c", "a.b", "a.b.c", "ab", "b.x"];
+
+struct G<'a> {
+    rng: &'a mut Rng,
+    p: Profile,
+    n: usize,
+    tcount: usize,
+    mcount: usize,
+    vars: Vec<String>,
+    budget_var: usize,
+}
+
+impl<'a> G<'a> {
+    fn pm(&mut self, permille: u64) -> bool {
+        self.rng.below(1000) < permille
+    }
+
+    fn fresh_id(&mut self) -> String {
+        self.n += 1;
+        format!("s{}", self.n)
+    }
+
+    fn tree(&mut self, id: String, depth: usize, kind_hint: Option<Kind>) -> Node {
+        let mut node = Node::new(&id, kind_hint.unwrap_or(Kind::State));
+        if node.kind == Kind::Final || node.kind.is_history() {
+            return node;
+        }
+        let room = self.p.max_states.saturating_sub(self.n);
+        let want_children = depth < self.p.max_depth && room >= 2 && (depth == 0 || self.pm(if node.kind == Kind::Parallel { 900 } else { 450 }));
+        if node.kind == Kind::Parallel && !want_children {
+            node.kind = Kind::State;
+        }
+        if want_children {
+            let k = if node.kind == Kind::Parallel { self.rng.range(2, 3) as usize } else { self.rng.range(1, 3) as usize };
+            let k = k.min(room.max(1));
+            for _ in 0..k {
+                if self.n >= self.p.max_states {
+                    break;
+                }
+                let cid = self.fresh_id();
+                let ck = if node.kind != Kind::Parallel && depth + 1 < self.p.max_depth && self.pm(self.p.parallel) && self.p.max_states.saturating_sub(self.n) >= 3 {
+                    Some(Kind::Parallel)
+                } else {
+                    None
+                };
+                let child = self.tree(cid, depth + 1, ck);
+                node.children.push(child);
+            }
+            // a parallel needs at least two regions that are states
+            if node.kind == Kind::Parallel && node.children.len() < 2 {
+                node.kind = Kind::State;
+            }
+            // final child (not inside parallel directly: the reader forbids <final> in <parallel>)
+            if node.kind == Kind::State && !node.children.is_empty() && self.pm(if depth == 0 { self.p.top_final } else { self.p.finals }) {
+                let fid = self.fresh_id();
+                node.children.push(Node::new(&fid, Kind::Final));
+            }
+        }
+        node
+    }
+
+    fn add_histories(&mut self, node: &mut Node, depth: usize) {
+        let real_children = node.children.iter().filter(|c| !c.kind.is_history()).count();
+        if depth > 0 && real_children > 0 && self.pm(self.p.history) {
+            let hid = format!("h{}", self.n + 1);
+            self.n += 1;
+            let deep = self.pm(500);
+            let mut h = Node::new(&hid, if deep { Kind::HistoryDeep } else { Kind::HistoryShallow });
+            // default transition: legal targets (children for shallow, descendants for deep)
+            let mut cands: Vec<String> = Vec::new();
+            if node.kind == Kind::Parallel {
+                // target the parallel's regions by default entry: pick one child (others completed by the algorithm)
+                for c in node.children.iter().filter(|c| !c.kind.is_history()) {
+                    cands.push(c.id.clone());
+                }
+            } else {
+                for c in node.children.iter().filter(|c| !c.kind.is_history()) {
+                    cands.push(c.id.clone());
+                    if deep {
+                        collect_descendants(c, &mut cands);
+                    }
+                }
+            }
+            let target = self.rng.pick(&cands).clone();
+            let mut content = Vec::new();
+            if self.p.dm != Dm::Null {
+                content.push(self.mark("hd"));
+            }
+            h.trans.push(Trans { events: vec![], cond: None, targets: vec![target], internal: false, content, label: format!("{}.default", hid) });
+            // histories are rendered first among the children sometimes, last otherwise
+            if self.pm(500) {
+                node.children.insert(0, h);
+            } else {
+                node.children.push(h);
+            }
+        }
+        for c in node.children.iter_mut() {
+            if !c.kind.is_history() {
+                self.add_histories(c, depth + 1);
+            }
+        }
+    }
+
+    fn mark(&mut self, what: &str) -> Exec {
+        self.mcount += 1;
+        let tag = format!("{}{}", what, self.mcount);
+        let mut args = Vec::new();
+        if !self.vars.is_empty() && self.rng.chance(1, 3) {
+            let v = self.rng.pick(&self.vars).clone();
+            args.push(Expr::Var(v));
+        }
+        Exec::Mark(tag, args)
+    }
+
+    fn budgeted(&mut self, inner: Exec) -> Exec {
+        Exec::If {
+            arms: vec![(
+                Expr::Lt(Box::new(Expr::Int(0)), Box::new(Expr::Var("budget".into()))),
+                vec![Exec::Assign { loc: "budget".into(), expr: Expr::Sub(Box::new(Expr::Var("budget".into())), Box::new(Expr::Int(1))) }, inner],
+            )],
+            els: None,
+        }
+    }
+
+    fn int_expr(&mut self) -> Expr {
+        match self.rng.below(4) {
+            0 => Expr::Int(self.rng.below(5) as i64),
+            1 if !self.vars.is_empty() => Expr::Var(self.rng.pick(&self.vars).clone()),
+            2 if !self.vars.is_empty() => Expr::Add(Box::new(Expr::Var(self.rng.pick(&self.vars).clone())), Box::new(Expr::Int(1 + self.rng.below(3) as i64))),
+            _ => Expr::Int(self.rng.below(4) as i64),
+        }
+    }
+
+    fn guard(&mut self, ids: &[String]) -> Expr {
+        if self.p.dm == Dm::Null {
+            // the null datamodel knows In() only
+            return Expr::In(self.rng.pick(ids).clone());
+        }
+        match self.rng.below(5) {
+            0 | 1 => Expr::In(self.rng.pick(ids).clone()),
+            2 => Expr::Not(Box::new(Expr::In(self.rng.pick(ids).clone()))),
+            3 if !self.vars.is_empty() && self.p.dm != Dm::Null => Expr::Lt(Box::new(Expr::Var(self.rng.pick(&self.vars).clone())), Box::new(Expr::Int(1 + self.rng.below(4) as i64))),
+            4 if !self.vars.is_empty() && self.p.dm != Dm::Null => Expr::Eq(Box::new(Expr::Var(self.rng.pick(&self.vars).clone())), Box::new(Expr::Int(self.rng.below(3) as i64))),
+            _ => Expr::In(self.rng.pick(ids).clone()),
+        }
+    }
+
+    fn bad_expr(&mut self) -> Expr {
+        match self.rng.below(3) {
+            0 => Expr::Bad("nosuchvar + 1".into()),
+            1 => Expr::Bad("nosuch.member".into()),
+            _ => Expr::Bad("1 +".into()),
+        }
+    }
+
+    fn content(&mut self, depth: usize, max_items: usize) -> Vec<Exec> {
+        let mut out = Vec::new();
+        if self.p.dm == Dm::Null {
+            return out;
+        }
+        let n = self.rng.below(max_items as u64 + 1) as usize;
+        for _ in 0..n {
+            // weighted choice of the next item
+            let w = [300u64, if self.vars.is_empty() { 0 } else { 200 }, self.p.raise, if depth < 2 { self.p.if_foreach } else { 0 }, self.p.selfsend, self.p.readonly_writes, 100];
+            let total: u64 = w.iter().sum();
+            let mut r = self.rng.below(total);
+            let mut choice = 0;
+            for (i, x) in w.iter().enumerate() {
+                if r < *x {
+                    choice = i;
+                    break;
+                }
+                r -= x;
+            }
+            let x = match choice {
+                0 => self.mark("m"),
+                1 => {
+                    let v = self.rng.pick(&self.vars).clone();
+                    if v == "budget" {
+                        self.mark("m")
+                    } else {
+                        let mut e = if self.pm(self.p.errors) { self.bad_expr() } else { self.int_expr() };
+                        if e == Expr::Var(v.clone()) {
+                            // `x = x` makes rfsm-expression lock the same value twice (C12's business, F-alias)
+                            e = Expr::Add(Box::new(Expr::Var(v.clone())), Box::new(Expr::Int(1)));
+                        }
+                        Exec::Assign { loc: v, expr: e }
+                    }
+                }
+                2 => {
+                    // every raised event consumes the strictly decreasing budget: raise chains terminate
+                    let inner = if self.rng.chance(1, 2) {
+                        Exec::Raise(format!("r.{}", self.rng.pick(ALPHABET)))
+                    } else {
+                        Exec::Send { event: format!("r.{}", self.rng.pick(ALPHABET)), target: Some("#_internal".into()), delay_ms: 0, id: None, params: vec![] }
+                    };
+                    self.budgeted(inner)
+                }
+                3 => {
+                    if self.rng.chance(2, 3) {
+                        let narms = self.rng.range(1, 3) as usize;
+                        let mut arms = Vec::new();
+                        for _ in 0..narms {
+                            let c = if self.pm(self.p.errors) {
+                                self.bad_expr()
+                            } else if !self.vars.is_empty() {
+                                Expr::Lt(Box::new(Expr::Var(self.rng.pick(&self.vars).clone())), Box::new(Expr::Int(self.rng.below(4) as i64)))
+                            } else {
+                                Expr::Bool(self.rng.chance(1, 2))
+                            };
+                            let mut body = vec![self.mark("if")];
+                            body.extend(self.content(depth + 1, 2));
+                            arms.push((c, body));
+                        }
+                        let els = if self.rng.chance(1, 2) {
+                            let mut b = vec![self.mark("else")];
+                            b.extend(self.content(depth + 1, 1));
+                            Some(b)
+                        } else {
+                            None
+                        };
+                        Exec::If { arms, els }
+                    } else {
+                        let items: Vec<Expr> = (0..self.rng.below(4)).map(|_| Expr::Int(self.rng.below(9) as i64)).collect();
+                        let arr = if self.pm(self.p.errors) {
+                            if self.rng.chance(1, 2) {
+                                Expr::Int(7)
+                            } else {
+                                self.bad_expr()
+                            }
+                        } else {
+                            Expr::Array(items)
+                        };
+                        self.mcount += 1;
+                        let tag = format!("fe{}", self.mcount);
+                        let mut body = vec![Exec::Mark(tag, vec![Expr::Var("it".into()), Expr::Var("ix".into())])];
+                        body.extend(self.content(depth + 1, 1));
+                        Exec::Foreach { array: arr, item: "it".into(), index: Some("ix".into()), body }
+                    }
+                }
+                4 => {
+                    let inner = Exec::Send { event: format!("x.{}", self.rng.pick(ALPHABET)), target: None, delay_ms: 0, id: None, params: vec![] };
+                    self.budgeted(inner)
+                }
+                5 => {
+                    let loc = ["_sessionid", "_name", "_event", "_ioprocessors", "_event.name", "_event.type", "_event.data"];
+                    Exec::Assign { loc: self.rng.pick(&loc[..]).to_string(), expr: Expr::Int(99) }
+                }
+                _ => {
+                    if self.pm(self.p.errors) {
+                        Exec::Log(self.bad_expr())
+                    } else {
+                        Exec::Log(Expr::Str("l".into()))
+                    }
+                }
+            };
+            out.push(x);
+        }
+        out
+    }
+
+    fn decorate(&mut self, node: &mut Node, all_ids: &[String], ancestors: &[String], depth: usize) {
+        if node.kind.is_history() {
+            return;
+        }
+        let dm = self.p.dm;
+        // onentry / onexit
+        if depth > 0 {
+            let nb = if self.pm(self.p.content) { self.rng.range(1, 2) } else { 0 };
+            for _ in 0..nb {
+                let mut b = if dm != Dm::Null { vec![self.mark("en")] } else { vec![] };
+                b.extend(self.content(0, 3));
+                node.onentry.push(b);
+            }
+            let nb = if self.pm(self.p.content) { self.rng.range(1, 2) } else { 0 };
+            for _ in 0..nb {
+                let mut b = if dm != Dm::Null { vec![self.mark("ex")] } else { vec![] };
+                b.extend(self.content(0, 2));
+                node.onexit.push(b);
+            }
+        }
+        // initial
+        let real: Vec<String> = node.children.iter().filter(|c| !c.kind.is_history()).map(|c| c.id.clone()).collect();
+        if node.kind == Kind::State && !real.is_empty() {
+            match self.rng.below(4) {
+                0 => {}
+                1 => {
+                    let t = self.legal_initial(node);
+                    node.initial = Initial::Attr(t);
+                }
+                _ => {
+                    let t = self.legal_initial(node);
+                    if depth == 0 {
+                        node.initial = Initial::Attr(t);
+                    } else {
+                        let mut c = if dm != Dm::Null { vec![self.mark("ini")] } else { vec![] };
+                        c.extend(self.content(0, 1));
+                        node.initial = Initial::Elem { targets: t, content: c };
+                    }
+                }
+            }
+        }
+        // transitions
+        if depth > 0 && node.kind != Kind::Final {
+            let nt = self.rng.below(4) as usize;
+            for _ in 0..nt {
+                let t = self.transition(node, all_ids, ancestors);
+                node.trans.push(t);
+            }
+        }
+        if node.kind == Kind::Final && depth > 1 && self.pm(self.p.donedata) && dm != Dm::Null {
+            let e = self.int_expr();
+            node.donedata = Some(DoneData { params: vec![("v".into(), e)] });
+        }
+        let mut anc = ancestors.to_vec();
+        if depth > 0 {
+            anc.push(node.id.clone());
+        }
+        // cannot borrow node.children mutably while calling self methods that need node: take them out
+        let mut children = std::mem::take(&mut node.children);
+        for c in children.iter_mut() {
+            self.decorate(c, all_ids, &anc, depth + 1);
+        }
+        node.children = children;
+    }
+
+    fn legal_initial(&mut self, node: &Node) -> Vec<String> {
+        // a descendant; if it lies inside a parallel, optionally one target per region
+        let mut cands = Vec::new();
+        for c in node.children.iter().filter(|c| !c.kind.is_history()) {
+            cands.push(c.id.clone());
+            if self.rng.chance(1, 3) {
+                collect_descendants(c, &mut cands);
+            }
+        }
+        vec![self.rng.pick(&cands).clone()]
+    }
+
+    fn transition(&mut self, node: &Node, all_ids: &[String], _ancestors: &[String]) -> Trans {
+        self.tcount += 1;
+        let label = format!("t{}", self.tcount);
+        let mut t = Trans { label: label.clone(), ..Default::default() };
+        let eventless = self.p.dm != Dm::Null && self.pm(self.p.eventless);
+        if eventless {
+            // guarded by the strictly decreasing budget so that eventless chains terminate
+            t.cond = Some(Expr::Lt(Box::new(Expr::Int(0)), Box::new(Expr::Var("budget".into()))));
+            t.content.push(Exec::Assign { loc: "budget".into(), expr: Expr::Sub(Box::new(Expr::Var("budget".into())), Box::new(Expr::Int(1))) });
+            self.budget_var += 1;
+        } else {
+            let ne = self.rng.range(1, 2) as usize;
+            for _ in 0..ne {
+                let mut d = self.rng.pick(ALPHABET).to_string();
+                match self.rng.below(12) {
+                    0 => d.push_str(".*"),
+                    1 => d.push('.'),
+                    2 if self.p.errors == 0 => d = "*".to_string(),
+                    3 => d = format!("r.{}", d),
+                    4 => d = "done.state".to_string(),
+                    5 if self.p.errors == 0 => d = "error".to_string(),
+                    _ => {}
+                }
+                if !t.events.contains(&d) {
+                    t.events.push(d);
+                }
+            }
+            if self.pm(self.p.guards) {
+                let g = if self.pm(self.p.errors) { self.bad_expr() } else { self.guard(all_ids) };
+                t.cond = Some(g);
+            }
+        }
+        if !self.pm(self.p.targetless) {
+            let multi = self.pm(self.p.multi_target);
+            let first = self.rng.pick(all_ids).clone();
+            t.targets.push(first);
+            if multi {
+                // a second target only makes a legal specification if both lie in different regions of a
+                // parallel; the legality filter below rejects everything else
+                let second = self.rng.pick(all_ids).clone();
+                if !t.targets.contains(&second) {
+                    t.targets.push(second);
+                }
+            }
+            t.internal = self.pm(self.p.internal);
+        }
+        if self.p.dm != Dm::Null {
+            t.content.insert(0, Exec::Mark(label, vec![Expr::EventName]));
+            let extra = self.content(0, 2);
+            t.content.extend(extra);
+        }
+        let _ = node;
+        t
+    }
+}
+
+fn assign_state_data(g: &mut G, n: &mut Node, depth: usize) {
+    if n.kind.is_history() {
+        return;
+    }
+    if depth > 0 && n.kind != Kind::Final && g.p.dm != Dm::Null && g.pm(g.p.state_data) {
+        let id = format!("w{}", g.vars.len());
+        let init = g.rng.below(4) as i64 + 10;
+        n.data.push(DataDecl { id: id.clone(), expr: Some(Expr::Int(init)) });
+        g.vars.push(id);
+    }
+    for c in n.children.iter_mut() {
+        assign_state_data(g, c, depth + 1);
+    }
+}
+
+fn collect_descendants(n: &Node, out: &mut Vec<String>) {
+    for c in n.children.iter().filter(|c| !c.kind.is_history()) {
+        out.push(c.id.clone());
+        collect_descendants(c, out);
+    }
+}
+
+pub fn all_state_ids(n: &Node, out: &mut Vec<String>, include_history: bool) {
+    for c in &n.children {
+        if c.kind.is_history() {
+            if include_history {
+                out.push(c.id.clone());
+            }
+        } else {
+            out.push(c.id.clone());
+            all_state_ids(c, out, include_history);
+        }
+    }
+}
+
+/// Generate a conformant document. Legality of target sets (multi-targets, history defaults) is
+/// enforced by `crate::refsm::Model::validate`, the caller retries on rejection.
+pub fn generate(rng: &mut Rng, p: &Profile, name: &str) -> Doc {
+    let mut g = G { rng, p: p.clone(), n: 0, tcount: 0, mcount: 0, vars: vec![], budget_var: 0 };
+    let mut root = g.tree(String::new(), 0, None);
+    if root.children.iter().filter(|c| c.kind != Kind::Final).count() == 0 {
+        let id = g.fresh_id();
+        root.children.insert(0, Node::new(&id, Kind::State));
+    }
+    g.add_histories(&mut root, 0);
+    if p.dm != Dm::Null {
+        let nv = g.rng.range(1, 3) as usize;
+        for k in 0..nv {
+            g.vars.push(format!("v{}", k));
+        }
+        g.vars.push("budget".into());
+    }
+    assign_state_data(&mut g, &mut root, 0);
+    let mut ids = Vec::new();
+    all_state_ids(&root, &mut ids, true);
+    g.decorate(&mut root, &ids, &[], 0);
+    // data declarations: top level (early: with values; late: top-level without values, see DESIGN 4.1)
+    let late = p.late;
+    let mut decls = Vec::new();
+    for v in g.vars.clone() {
+        if v.starts_with('w') {
+            continue;
+        }
+        let init = if v == "budget" { Expr::Int(2 + g.rng.below(3) as i64) } else { Expr::Int(g.rng.below(3) as i64) };
+        decls.push(DataDecl { id: v, expr: Some(init) });
+    }
+    if p.dm != Dm::Null {
+        decls.push(DataDecl { id: "it".into(), expr: Some(Expr::Int(0)) });
+        decls.push(DataDecl { id: "ix".into(), expr: Some(Expr::Int(0)) });
+    }
+    root.data = decls;
+    if late {
+        // don't-care avoided: <scxml initial=...> together with late binding and top-level data
+        if let Initial::Attr(_) = root.initial {
+            root.initial = Initial::Default;
+        }
+    }
+    // ping -> pong in every top-level non-final state is added by the scenario templates where needed
+    Doc { name: name.to_string(), dm: p.dm, late, root }
 }
